@@ -152,24 +152,28 @@ Proof.
   - cbn [do_append snd]. split; [intros _|reflexivity]. split; [reflexivity|]. pose proof (proj1 V eq_refl). lia.
 Qed.
 
-(* resize: not negative, and the last signal still ends inside the payload *)
+(* resize: not negative, representable in bits (unless unchanged), and the last signal still ends
+   inside the payload *)
 Lemma resize_accepted_iff : forall s m n, InvA s ->
   (is_ok (snd (step_resize s m n)) <->
-   0 <= n /\ (glay s m = [] \/ last_end (sz s) (rel s) (glay s m) <= 8 * n)).
+   0 <= n /\ (n = gbytes s m \/ n <= 2 ^ 60 - 1) /\ (glay s m = [] \/ last_end (sz s) (rel s) (glay s m) <= 8 * n)).
 Proof.
   intros s m n H. unfold step_resize, is_ok.
   pose proof (a_ok s H (LM m)) as Hok. cbn [lay lsz] in Hok. pose proof (a_lsize s H m) as Els.
   destruct (Z.ltb_spec n 0); [split; [discriminate|lia]|].
   destruct (Z.eqb_spec (gbytes s m) n) as [E|NE].
-  - cbn [snd]. split; [intros _|reflexivity]. split; [lia|].
+  - cbn [snd]. split; [intros _|reflexivity]. split; [lia|]. split; [left; lia|].
     destruct (glay s m) as [|a r] eqn:El; [left; reflexivity|right].
     rewrite <- El in *. rewrite last_end_lend. destruct (ok_lend _ _ _ _ _ Hok) as [_ B].
     specialize (B ltac:(rewrite El; discriminate)). lia.
-  - pose proof (verify_resize_spec (sz s) (rel s) (glsize s m) (glay s m) (n * 8) Hok) as V.
-    destruct (verify_resize (sz s) (rel s) (glsize s m) (glay s m) (n * 8)) eqn:Ev.
-    + cbn [snd]. split; [discriminate|]. intros [_ F]. assert (Some c = None) as C; [|discriminate].
-      apply V. destruct F; [left; assumption|right; lia].
-    + cbn [snd]. split; [intros _|reflexivity]. split; [lia|]. destruct (proj1 V eq_refl); [left; assumption|right; lia].
+  - destruct (Z.ltb_spec (2 ^ 60 - 1) n) as [Hbig|Hsmall].
+    + cbn [snd]. split; [discriminate|]. intros (_ & [C|C] & _); lia.
+    + pose proof (verify_resize_spec (sz s) (rel s) (glsize s m) (glay s m) (n * 8) Hok) as V.
+      destruct (verify_resize (sz s) (rel s) (glsize s m) (glay s m) (n * 8)) eqn:Ev.
+      * cbn [snd]. split; [discriminate|]. intros (_ & _ & F). assert (Some c = None) as C; [|discriminate].
+        apply V. destruct F; [left; assumption|right; lia].
+      * cbn [snd]. split; [intros _|reflexivity]. split; [lia|]. split; [right; lia|].
+        destruct (proj1 V eq_refl); [left; assumption|right; lia].
 Qed.
 
 (* size change of a top-level signal: growing by a is accepted exactly when a <= the free space
